@@ -1,100 +1,217 @@
 """C05 Blocks nest and end correctly; Block tag names the active block.
 
-Proof half: OPM.Properties.C05 — chain invariant of the locked blocks over every reachable state of
-the interpreter model (all programs, all schedules), End block / End blocks step theorems, a block
-completes only after it was ended.
-Tie half: correspondence of the real PInterpreter with OPM.Model.Interp on generated block-heavy
-programs and schedules.  Oracle: the property stated over the real Engine's node flags and Block tag.
+Proof half: OPM.Properties.C05 — chain invariant of the locked blocks over every reachable state of the
+interpreter model (all programs, all schedules); the key-path sort of get_locked_blocks() puts the deepest
+block first (well-formed trees); Block-tag invariant for calm runs + counterexamples to the full clause;
+End block ends exactly the innermost active block when the first locked block is still active +
+counterexample to the full clause; End blocks ends all; a completed Block is an ended Block over every
+schedule.
+Tie half: correspondence of the real PInterpreter with OPM.Model.Interp on generated block-heavy programs and
+schedules (per-tick node flags, Block tag, interrupt map, events), plus a block stream that compares the real
+get_locked_blocks() order, the active chain by tree depth and the tag clause with the model's `lockedBlocks`,
+`activeBlocks`, `TagOk` and the tree's well-formedness with `ProgWF`.
+Oracle: the property text stated over the real Engine's node flags, Block tag and interrupt table.
 """
 from __future__ import annotations
 
+from fractions import Fraction
+
 from harness.interp_corr import m3_stream
-from vp.core import Check, Failure
+from vp.core import Check, Failure, drive, load_corpus
 
 META = dict(
-    level_text="Lean 4 theorems over the interpreter model (frame-stack machine of pinterpreter.py): in every reachable "
-               "state, for every method and every schedule of ticks / cancel / force / command completions, the locked "
-               "method blocks form one nested chain (invariant proved for every micro-step of every generator); End "
-               "block ends exactly the first locked block, sets the Block tag to the next outer one and unregisters "
-               "exactly the interrupts rooted inside it; End blocks ends all and clears the tag; a Block completes only "
-               "in a step that found it ended. The model is tied to the real PInterpreter by differential execution "
-               "of generated programs (per-tick node flags, Block/Mark tags, interrupt map, events).",
-    level_note="Trusted: Lean kernel, the correspondence harness, the model's inputs (clock tags, condition tags, command "
-               "completion are supplied by the harness). 'Innermost' is defined by get_locked_blocks' key-path sort, which "
-               "the model reproduces; the Block *tag* clause is checked by the oracle on the real engine, not proved "
-               "(it is false for methods that re-arm an Alarm around a live Watch that holds a block: recorded). "
-               "Injected blocks are outside the chain theorem (they are invisible to get_locked_blocks).",
-    technique="Lean 4 proof (inductive invariant over micro-steps + step theorems) + differential correspondence + engine oracle",
+    level_text="Lean 4 theorems over the interpreter model (frame-stack machine of pinterpreter.py). (1) In every "
+               "reachable state, for every method and every schedule of ticks / cancel / force / command completions, "
+               "the locked (hence the active) method blocks form one nested chain (inductive invariant over every "
+               "micro-step of every generator). (2) For a well-formed method tree (decidable ProgWF: parent index < "
+               "child index, parent key path a proper prefix of the child's; evaluated on every parsed method) the "
+               "key-path string sort of get_locked_blocks() lists the blocks deepest first, so its head is the innermost "
+               "block. (3) Block tag: the clause at full strength (tag = name of the innermost active = locked and not "
+               "ended block, empty when none, in every reachable state) is stated as C05_tag_full and REFUTED by "
+               "kernel-evaluated witnesses; it is proved for every state reached by calm ticks - ticks in which no "
+               "micro-step is one of four named exotic steps (decidable along the run: a reset of a lock-holding node by "
+               "an Alarm re-arm / macro call, End block while the enclosing locked block is already ended, a Block "
+               "revisited completed+locked, a Block acquiring while ended) - and every non-exotic micro-step of every "
+               "generator keeps it. (4) End block: the clause at full strength (ends the innermost active block) is "
+               "C05_endblock_full, REFUTED by a witness (the first locked block may be ended already); when the first "
+               "locked block is still active End block ends exactly the innermost active block, leaves every other "
+               "flag, unregisters exactly the interrupts rooted inside it, moves no lock and the tag names the next "
+               "active block. End blocks ends every locked block, un-ends none, clears the tag. (5) A Block's visit "
+               "returns only through a step that leaves it completed, `completed` of a Block is set only by a step that "
+               "found it ended, and over every schedule a completed Block is an ended Block. The model is tied to the "
+               "real PInterpreter by differential execution (per-tick node flags, Block/Mark tags, interrupt map, "
+               "events; real get_locked_blocks() order, active chain by depth, tag clause, tree well-formedness).",
+    level_note="PARTIAL where stated. The Block-tag clause and the End-block clause are false of the code as it is "
+               "(findings.d/C05.json, each witness replayed on the real engine every run): the theorems carry explicit "
+               "decidable hypotheses (calm ticks; first locked block active) and the full statements are refuted in "
+               "Lean. The 'calm' hypothesis is dynamic (a test along the run), not a static class of methods; a run "
+               "census reports how many generated runs are calm. 'Instructions after a block start only after the "
+               "block ended' is proved as: visit returns only completed + completed only when ended (steps) + completed "
+               "Block is ended (all schedules); that the parent's loop enters the next line only after the previous "
+               "visit returned is C02's stack discipline, the composed statement is checked by the oracle (blocks not "
+               "under an Alarm: the Alarm re-arm resets flags while old handlers keep running). 'Together with its "
+               "pending Watches and Alarms' is proved as the state change of End block (exactly the interrupts rooted "
+               "in the block leave the table); that an unregistered handler can still run in the ending tick and "
+               "register itself again is a recorded finding. Injected blocks and live edits are outside the theorems "
+               "(invisible to get_locked_blocks). Trusted: Lean kernel, the correspondence harness, the model's inputs "
+               "(clock tags, condition tags, command completion).",
+    technique="Lean 4 proof (inductive invariants over micro-steps, classification of every micro-step's effect on "
+              "tag/locks/ended flags, insertion-sort order lemma, as-is counterexamples by kernel evaluation) + "
+              "differential correspondence + engine oracle",
 )
 MODULE = "OPM.Properties.C05"
-REQUIRED = ["OPM.C05.active_blocks_form_chain", "OPM.C05.chain_stepGen", "OPM.C05.chain_tick",
-            "OPM.C05.endBlock_ends_innermost", "OPM.C05.endBlocks_ends_all",
-            "OPM.C05.block_completes_only_when_ended", "OPM.C05.acquire_step"]
+REQUIRED = ["OPM.C05.active_blocks_form_chain", "OPM.C05.active_chain", "OPM.C05.chain_stepGen", "OPM.C05.chain_tick",
+            "OPM.C05.locked_blocks_deepest_first", "OPM.C05.get_locked_blocks_assertions_hold",
+            "OPM.C05.active_head_is_innermost",
+            "OPM.C05.C05_tag_counterexample", "OPM.C05.C05_tag_witness_alarm_rearm",
+            "OPM.C05.C05_tag_witness_end_block_names_ended", "OPM.C05.tagOk_stepGen", "OPM.C05.C05_tag_partial",
+            "OPM.C05.tag_after_calm_run",
+            "OPM.C05.C05_endblock_counterexample", "OPM.C05.C05_endblock_witness", "OPM.C05.C05_endblock_partial",
+            "OPM.C05.C05_interrupts_counterexample", "OPM.C05.C05_interrupts_witness",
+            "OPM.C05.endBlock_without_block", "OPM.C05.endBlocks_ends_all",
+            "OPM.C05.block_completes_only_when_ended", "OPM.C05.block_visit_returns_completed",
+            "OPM.C05.completed_block_is_ended", "OPM.C05.acquire_step", "OPM.C05.acquire_blocked"]
 FEATURES = {"mark", "block", "watch", "alarm", "wait", "cmd", "thr", "blank"}
+# "endany": End block(s) also in Watch / Alarm / Macro bodies that are not lexically inside a block
+ORACLE_FEATURES = {"mark", "block", "watch", "alarm", "macro", "wait", "cmd", "thr", "endany"}
 
 
-def oracle_case(pcode: str, n_ticks: int, tags_plan: list) -> Failure | None:
-    """The property over the real engine: chain, Block tag, successor-after-end."""
+# ----------------------------------------------------------------------------------------
+# property oracle over the real Engine
+
+def oracle_case(pcode: str, n_ticks: int, tags_plan: list, injects: dict | None = None) -> list[Failure]:
+    """The property text over the real engine, tick by tick.  Returns the failures of the first tick that has
+    any (what follows a violation is not judged).  `injects`: {tick: snippet} injected before that tick."""
     from harness.engine_run import EngineRun
     run = EngineRun(pcode)
+    fails: list[Failure] = []
+
+    def fail(key, t, detail):
+        case = {"pcode": pcode, "ticks": n_ticks, "plan": tags_plan, "tick": t}
+        if injects:
+            case["inject"] = injects
+        fails.append(Failure(key, case, detail))
     try:
         prev = None
+        prev_handlers: dict = {}
+        keep = []           # keeps every Interrupt object alive so that id() stays unique
         for t in range(n_ticks):
             for name, v in tags_plan[t] if t < len(tags_plan) else []:
                 run.set_tag(name, v)
+            if injects and str(t) in injects:
+                run.inject(injects[str(t)])
             snap = run.tick()
+            handlers = {}
+            for it in run.engine.interpreter.interrupts:
+                keep.append(it)
+                handlers[it.node.id] = id(it)
             nodes = {n["id"]: n for n in snap["nodes"]}
-
-            def ancestors(n):
-                out = []
-                while n["parent"] is not None:
-                    n = nodes[n["parent"]]
-                    out.append(n["id"])
-                return out
-            active = [n for n in snap["nodes"] if n["cls"] == "BlockNode" and n["lock"] and not n["ended"]]
-            locked = [n for n in snap["nodes"] if n["cls"] == "BlockNode" and n["lock"]]
-            for a in locked:
-                for b in locked:
-                    if a["id"] != b["id"] and a["id"] not in ancestors(b) and b["id"] not in ancestors(a):
-                        return Failure("active-blocks-not-a-chain", {"pcode": pcode, "tick": t},
-                                       f"blocks {a['arg']} and {b['arg']} are both active but not nested")
+            anc: dict = {}
+            for nid, n in nodes.items():
+                out, m = [], n
+                while m["parent"] is not None:
+                    m = nodes[m["parent"]]
+                    out.append(m["id"])
+                anc[nid] = out
+            blocks = [n for n in snap["nodes"] if n["cls"] == "BlockNode"]
+            active = [n for n in blocks if n["lock"] and not n["ended"]]
+            pn = {n["id"]: n for n in prev["nodes"]} if prev is not None else {}
+            common = prev is not None and set(pn) == set(nodes)
+            # (1) active blocks form one nested chain
+            for a in active:
+                for b in active:
+                    if a["id"] < b["id"] and a["id"] not in anc[b["id"]] and b["id"] not in anc[a["id"]]:
+                        fail("active-blocks-not-a-chain", t,
+                             f"blocks {a['arg']} and {b['arg']} are both active but not nested")
+            rearmed = [n for n in snap["nodes"] if n["cls"] == "AlarmNode" and common
+                       and (n["run_count"] or 0) > (pn[n["id"]]["run_count"] or 0)]
+            done_now = [n for n in snap["nodes"] if n["cls"] in ("EndBlockNode", "EndBlocksNode") and common
+                        and n["completed"] and not pn[n["id"]]["completed"]]
+            # (2) the Block tag names the innermost active block, empty when none
             tag = snap["tags"].get("Block")
-            inner = max(active, key=lambda n: len(ancestors(n)), default=None)
+            inner = max(active, key=lambda n: len(anc[n["id"]]), default=None)
             want = inner["arg"] if inner is not None else None
             if (tag or None) != (want or None) and snap["tags"].get("System State") == "Running" \
                     and snap["tags"].get("Method Status") != "Error":
-                return Failure("block-tag-not-innermost-active", {"pcode": pcode, "tick": t},
-                               f"Block tag {tag!r}, innermost active block {want!r}")
-            # a sibling after a block starts only after the block ended
-            for n in snap["nodes"]:
-                if n["cls"] == "BlockNode" and n["parent"] is not None:
-                    sibs = [m for m in snap["nodes"] if m["parent"] == n["parent"]]
-                    i = [m["id"] for m in sibs].index(n["id"])
-                    for m in sibs[i + 1:]:
-                        if m["started"] and not (n["ended"] or n["completed"] or not n["started"]):
-                            # n not started can happen when the whole scope was reset (Alarm/Macro re-run)
-                            return Failure("successor-starts-before-block-ended", {"pcode": pcode, "tick": t},
-                                           f"line {m['line']} started while block {n['arg']} has not ended")
-            # 'End block' ends exactly the innermost active block (ticks with a single End block completing)
-            if prev is not None:
-                pn = {n["id"]: n for n in prev["nodes"]}
-                done_now = [n for n in snap["nodes"] if n["cls"] in ("EndBlockNode", "EndBlocksNode")
-                            and n["completed"] and n["id"] in pn and not pn[n["id"]]["completed"]]
-                newly_ended = [n for n in snap["nodes"] if n["cls"] == "BlockNode" and n["ended"]
-                               and n["id"] in pn and not pn[n["id"]]["ended"]]
-                if len(done_now) == 1 and done_now[0]["cls"] == "EndBlockNode":
-                    p_active = [n for n in prev["nodes"] if n["cls"] == "BlockNode" and n["lock"] and not n["ended"]]
-                    p_inner = max(p_active, key=lambda n: len(ancestors(nodes[n["id"]])), default=None)
-                    fresh = [n for n in newly_ended if not pn[n["id"]]["lock"]]
+                site = ""
+                named = [b for b in blocks if b["arg"] == tag]
+                if any(not b["lock"] and not b["ended"] and not b["completed"]
+                       and any(a["id"] in anc[b["id"]] for a in rearmed) for b in named):
+                    site = ":block-reset-by-alarm-rearm"
+                elif any(d["cls"] == "EndBlockNode" for d in done_now) and any(b["ended"] for b in named):
+                    site = ":end-block-names-ended-block"
+                fail("block-tag-not-innermost-active" + site, t,
+                     f"Block tag {tag!r}, innermost active block {want!r}")
+            # (3) a line after a block starts only after the block has ended (blocks under an Alarm or in a Macro are
+            #     not judged: the re-arm / the next call resets the flags while handlers registered by the previous
+            #     run keep running)
+            for n in blocks:
+                if n["parent"] is None or not n["started"] or n["ended"]:
+                    continue
+                if any(nodes[a]["cls"] in ("AlarmNode", "MacroNode") for a in anc[n["id"]]):
+                    continue
+                sibs = [m for m in snap["nodes"] if m["parent"] == n["parent"]]
+                i = [m["id"] for m in sibs].index(n["id"])
+                for m in sibs[i + 1:]:
+                    if m["started"]:
+                        fail("successor-starts-before-block-ended", t,
+                             f"line {m['line']} started while block {n['arg']} (line {n['line']}) has not ended")
+            if common:
+                p_active = [n for n in prev["nodes"] if n["cls"] == "BlockNode" and n["lock"] and not n["ended"]]
+                p_inner = max(p_active, key=lambda n: len(anc[n["id"]]), default=None)
+                newly_ended = [n for n in blocks if n["ended"] and not pn[n["id"]]["ended"]]
+                acquired = [n for n in blocks if (n["lock"] or n["ended"]) and not pn[n["id"]]["lock"]
+                            and not pn[n["id"]]["ended"]]
+                # the active set at the moment the one End block(s) ran is the one of the previous snapshot
+                quiet = not acquired and not rearmed and len(done_now) == 1
+                # (4) End block ends exactly the innermost active block
+                if quiet and done_now[0]["cls"] == "EndBlockNode":
+                    got = [n["arg"] for n in newly_ended]
                     if len(newly_ended) > 1:
-                        return Failure("end-block-ended-several", {"pcode": pcode, "tick": t},
-                                       f"one End block ended {[n['arg'] for n in newly_ended]}")
-                    if len(newly_ended) == 1 and not fresh and p_inner is not None \
-                            and newly_ended[0]["id"] != p_inner["id"]:
-                        return Failure("end-block-not-innermost", {"pcode": pcode, "tick": t},
-                                       f"End block ended {newly_ended[0]['arg']!r}, innermost active was {p_inner['arg']!r}")
+                        fail("end-block-ended-several", t, f"one End block ended {got}")
+                    elif p_inner is not None and [n["id"] for n in newly_ended] != [p_inner["id"]]:
+                        deeper_ended = [b for b in prev["nodes"] if b["cls"] == "BlockNode" and b["lock"] and b["ended"]
+                                        and p_inner["id"] in anc[b["id"]]]
+                        if not newly_ended and deeper_ended:
+                            fail("end-block-not-innermost:innermost-locked-already-ended", t,
+                                 f"End block ended nothing, innermost active was {p_inner['arg']!r} "
+                                 f"(ended block {deeper_ended[0]['arg']!r} still held the lock)")
+                        else:
+                            fail("end-block-not-innermost", t,
+                                 f"End block ended {got}, innermost active was {p_inner['arg']!r}")
+                    elif p_inner is None and newly_ended:
+                        fail("end-block-not-innermost", t, f"End block ended {got}, no block was active")
+                # (5) End blocks ends all active blocks
+                if quiet and done_now[0]["cls"] == "EndBlocksNode":
+                    left = [b["arg"] for b in p_active if not nodes[b["id"]]["ended"]]
+                    if left:
+                        fail("end-blocks-left-active", t, f"End blocks left {left} not ended")
+                # (6) …together with its pending Watches and Alarms: an interrupt that was registered before the
+                #     tick in which a block around it ended is not registered after that tick
+                regs_prev = set(prev["interrupts"])
+                for wid in snap["interrupts"]:
+                    if wid not in regs_prev or wid not in nodes:
+                        continue
+                    for bid in anc[wid]:
+                        b = nodes[bid]
+                        if b["cls"] == "BlockNode" and b["ended"] and not pn[bid]["ended"]:
+                            w = nodes[wid]
+                            site = ""
+                            if handlers.get(wid) != prev_handlers.get(wid):
+                                site = ":reregistered-in-ending-tick"
+                            fail("interrupt-survives-end-block" + site, t,
+                                 f"{w['name']} line {w['line']} is still registered after block {b['arg']!r} "
+                                 f"around it ended")
+            if fails:
+                break
             prev = snap
-        return None
+            prev_handlers = handlers
+        seen, out = set(), []
+        for f in fails:
+            if f.key not in seen:
+                seen.add(f.key)
+                out.append(f)
+        return out
     finally:
         run.close()
 
@@ -109,7 +226,28 @@ TEMPLATES = [
     "Block: A\n    Block: B\n        Block: C\n            Mark: c\n            End blocks\n        Mark: b\n    Mark: a\nMark: z",
     "Block: A\n    Watch: T0 > 0\n        End block\n    Block: B\n        Wait: 1s\n        End block\n    Wait: 1s\n    End block\nMark: z",
     "Watch: T0 > 0\n    Block: W\n        Mark: w\n        End block\nBlock: A\n    Wait: 1s\n    End block\nMark: z",
+    # Alarm shapes: an Alarm around a Watch that holds a block (the re-arm resets the block), an Alarm inside a
+    # block that is ended from a Watch, an Alarm whose body is a block
+    "Alarm: T0 > 0\n    Watch: T0 > 0\n        Block: W\n            Wait: 2s\n            End block\n    Mark: a",
+    "Block: A\n    Alarm: T0 > 0\n        Mark: m\n    Watch: T0 > 0\n        Wait: 0.5s\n        End block\n    Wait: 3s\n    End block\nMark: z",
+    "Alarm: T0 > 0\n    Block: W\n        Mark: w\n        Wait: 0.5s\n        End block\n    Mark: a\nBlock: A\n    Wait: 2s\n    End block\nMark: z",
+    # End block from a top-level Watch around the tick of End blocks; two Watches ending the same block
+    "Watch: T0 > 0\n    End block\nBlock: A\n    Block: B\n        Wait: 1s\n        End blocks\n    Mark: a\nMark: z\nWait: 1s\nMark: y",
+    "Block: A\n    Watch: T0 > 0\n        End block\n    Watch: T0 > 0\n        Wait: 0.25s\n        End block\n    Block: B\n        Wait: 2s\n        End block\n    Mark: a\n    Wait: 2s\n    End block\nMark: z",
+    # End blocks / End block issued from a place that is NOT lexically inside the active blocks: a root-level Watch,
+    # a root-level Alarm, a Macro defined at root and called inside the blocks
+    "Watch: T0 > 0\n    End blocks\nBlock: A\n    Block: B\n        Wait: 2s\n        Mark: b\n    Mark: a\nMark: z",
+    "Alarm: T0 > 0\n    End blocks\n    Wait: 3s\nBlock: A\n    Block: B\n        Wait: 2s\n        Mark: b\n    Mark: a\nMark: z",
+    "Macro: Leave\n    Mark: m\n    End blocks\nBlock: A\n    Block: B\n        Mark: b1\n        Call macro: Leave\n        Mark: b2\n    Mark: a\nMark: z",
+    "Macro: Leave\n    End block\nBlock: A\n    Block: B\n        Mark: b1\n        Call macro: Leave\n        Mark: b2\n    Mark: a\n    Call macro: Leave\n    Mark: a2\nMark: z",
+    "Watch: T0 > 0\n    End block\n    Wait: 0.5s\n    End block\nBlock: A\n    Block: B\n        Wait: 2s\n        Mark: b\n    Wait: 2s\n    Mark: a\nMark: z",
+    # a Watch whose body opens a block, next to a Watch that ends the enclosing block in the same tick
+    "Block: B\n    Watch: T0 > 0\n        End block\n    Watch: T0 > 0\n        Block: N\n            Mark: n\n            End block\n    Wait: 3s\n    End block\nMark: z\nBlock: C\n    Mark: c\n    End block\nMark: y",
 ]
+
+
+# End blocks / End block injected while the main flow is inside nested blocks
+INJECT_TEMPLATE = "Block: A\n    Block: B\n        Wait: 3s\n        Mark: b\n    Mark: a\nMark: z"
 
 
 def template_cases() -> list[dict]:
@@ -119,19 +257,156 @@ def template_cases() -> list[dict]:
             plan = [[] for _ in range(45)]
             plan[k] = [("T0", 1)]
             out.append({"pcode": t, "ticks": 45, "plan": plan})
+    for snippet in ("End blocks", "End block"):
+        for k in range(8, 20, 2):
+            out.append({"pcode": INJECT_TEMPLATE, "ticks": 45, "plan": [], "inject": {str(k): snippet}})
     return out
 
 
-def gen_oracle_cases(ctx: Check, n: int):
+def gen_oracle_cases(ctx: Check, n: int, fixed: bool = True):
     from harness.gen_pcode import gen_program
     rng = ctx.rng
-    out = template_cases()
+    out = []
+    if fixed:
+        out += [k["witness"] for k in ctx.known if k.get("witness")]
+        out += [c for c in load_corpus("C05") if "plan" in c]
+        out += template_cases()
     for _ in range(n):
-        # no Alarm-around-Watch nests here: see level_note
-        pcode, _ = gen_program(rng, features={"mark", "block", "watch", "wait", "cmd", "thr"}, max_lines=12)
+        pcode, _ = gen_program(rng, features=ORACLE_FEATURES, max_lines=12)
         plan = [[(f"T{rng.randrange(3)}", rng.randrange(4))] if rng.random() < 0.3 else [] for _ in range(40)]
         out.append({"pcode": pcode, "ticks": 40, "plan": plan})
     return out
+
+
+def _oracle(c):
+    return oracle_case(c["pcode"], c.get("ticks", 40), [[tuple(x) for x in t] for t in c.get("plan", [])],
+                       c.get("inject"))
+
+
+# ----------------------------------------------------------------------------------------
+# block stream: real get_locked_blocks() / active chain by depth / tag clause / tree shape vs the model
+
+def _py_wf(h) -> str:
+    for k, n in enumerate(h.nodes):
+        if h._is_injected(n):
+            return "0"
+        if n.parent is not None:
+            q = h.idx[n.parent.id]
+            a, b = n.parent.key_path, n.key_path
+            if not (q < k and b.startswith(a) and len(a) < len(b)):
+                return "0"
+    return "1"
+
+
+def _py_blk(h) -> str:
+    import openpectus.lang.model.ast as p
+    try:
+        locked = ",".join(str(h.idx[b.id]) for b in h.interp._program.get_locked_blocks())
+    except AssertionError:
+        locked = "assert"
+    act = [(k, n) for k, n in enumerate(h.nodes) if isinstance(n, p.BlockNode) and n.lock_acquired
+           and not n.block_ended and not h._is_injected(n)]
+    act.sort(key=lambda kn: (-len(kn[1].parents), kn[0]))
+    tag = h.tags[h.SystemTagName.BLOCK].get_value()
+    want = act[0][1].name if act else ""
+    ok = (tag or "") == (want or "")
+    return f"tagok={int(ok)}|locked={locked}|active={','.join(str(k) for k, _ in act)}"
+
+
+def _blocks_run(c: dict, tick_op: str = "tick", query: str = "blk") -> tuple[list[str], list[str]]:
+    from harness.interp import Harness
+    h = Harness(c["pcode"])
+    lines = h.node_lines() + h.content_lines()
+    outs = ["ok"] * len(lines)
+    lines.append("wf")
+    outs.append(_py_wf(h))
+    for op in c["ops"]:
+        _, dt, scope, block, tags = op
+        ln = h.op_line_tick(dt, Fraction(scope), Fraction(block), tags)
+        lines.append(tick_op + ln[len("tick"):])
+        outs.append(h.tick(dt, Fraction(scope), Fraction(block), tags))
+        lines.append(query)
+        outs.append(_py_blk(h))
+    return lines, outs
+
+
+def _plan_ops(plan: list, n: int) -> list:
+    """Engine-style tag plan -> interpreter-level tick ops (dt = 1/8 s, clocks = elapsed time)."""
+    tags = [0, 0, 0]
+    ops = []
+    for t in range(n):
+        for name, v in plan[t] if t < len(plan) else []:
+            tags[int(name[1])] = v
+        ops.append(["tick", 1, str(Fraction(t + 1, 8)), str(Fraction(t + 1, 8)), list(tags)])
+    return ops
+
+
+def blocks_stream(ctx: Check, n: int):
+    from harness.gen_pcode import gen_program, gen_schedule
+    rng = ctx.rng
+    cases = []
+    for w in [k["witness"] for k in ctx.known if k.get("witness")] + [c for c in load_corpus("C05") if "plan" in c]:
+        cases.append({"pcode": w["pcode"], "ops": _plan_ops(w["plan"], w.get("ticks", 40))})
+    for t in TEMPLATES:
+        for k in (9, 12, 15):
+            plan = [[] for _ in range(45)]
+            plan[k] = [("T0", 1)]
+            cases.append({"pcode": t, "ops": _plan_ops(plan, 45)})
+    for _ in range(n):
+        pcode, _ = gen_program(rng, features=ORACLE_FEATURES, max_lines=12)
+        cases.append({"pcode": pcode, "ops": gen_schedule(rng, rng.randrange(15, 45), with_requests=False)})
+    cache: dict[int, tuple[list[str], list[str]]] = {}
+
+    def both(c):
+        if id(c) not in cache:
+            cache[id(c)] = _blocks_run(c)
+        return cache[id(c)]
+
+    def nontrivial(c, out):
+        return any("|active=" in o and not o.endswith("|active=") for o in out)
+    impl_out, model_out = ctx.correspond("c05-blocks", "Interp", cases, lambda c: both(c)[0], lambda c: both(c)[1],
+                                         nontrivial=nontrivial, impl_timeout=60)
+    # the real tree is well-formed (the hypothesis of the 'innermost' theorems) on every parsed method
+    for c, o in zip(cases, impl_out):
+        wf = next((x for x in o if x in ("0", "1")), None)
+        if wf != "1":
+            ctx.fail(Failure("method-tree-not-well-formed", {"pcode": c["pcode"]},
+                             "a node's key_path is not its parent's key_path plus a suffix, or a parent is numbered "
+                             "after its child"))
+        for x in o:
+            if x.startswith("tagok="):
+                ctx.count("blk:ticks")
+                if "," in x.split("|active=")[1]:
+                    ctx.count("blk:ticks_with_nested_active_blocks")
+                if x.startswith("tagok=0"):
+                    ctx.count("blk:ticks_tag_wrong")
+    # discrimination: a model that lists the active blocks outermost first must be told apart
+    if model_out:
+        ctx.selftest("c05-blocks", "Interp", cases,
+                     lambda c: [("blkm" if ln == "blk" else ln) for ln in both(c)[0]], model_out)
+    return [(c, both(c)[0]) for c in cases]
+
+
+def calm_census(ctx: Check, cases_lines: list) -> None:
+    """Model only: how many of the runs are calm (the hypothesis of C05_tag_partial), and the theorem's instance
+    on them (tag right at every tick of a calm prefix)."""
+    cases = [c for c, _ in cases_lines]
+    lines = [[("ctick" + ln[4:]) if ln.startswith("tick\t") else ln for ln in ls] for _, ls in cases_lines]
+    outs = drive("Interp", lines)
+    calm_runs = 0
+    for c, o in zip(cases, outs):
+        calm = True
+        for i, x in enumerate(o):
+            if x.startswith("calm="):
+                calm = calm and x.startswith("calm=1")
+                nxt = o[i + 1] if i + 1 < len(o) else ""
+                if calm and nxt.startswith("tagok=0"):
+                    ctx.proof_broken.append("model run contradicts C05_tag_partial: calm prefix with a wrong tag "
+                                            f"({c['pcode']!r})")
+        calm_runs += calm
+    ctx.extra["calm_census"] = {"runs": len(cases), "calm_runs": calm_runs}
+    ctx.count("census:runs", len(cases))
+    ctx.count("census:calm_runs", calm_runs)
 
 
 def run(ctx: Check) -> int:
@@ -139,22 +414,44 @@ def run(ctx: Check) -> int:
     ctx.rule = ("M3 stream: grammar-generated methods (blocks, End block(s), watches, alarms, waits, thresholds, UOD "
                 "commands; depth<=3, <=14 lines) x schedules of 12-45 ticks with random clocks/condition tags and "
                 "interleaved complete/cancel/force requests; non-trivial = some interrupt registered or block entered. "
-                "Oracle stream: block-heavy methods run on the real Engine, 40 ticks each.")
+                "Block stream: recorded witnesses, hand templates (Watch/Alarm opening or ending blocks around the main "
+                "flow) and generated block-heavy methods incl. Alarms x tick schedules; per tick the real "
+                "get_locked_blocks() order, the active chain by tree depth and the tag clause against the model; "
+                "non-trivial = some block active. Oracle stream: witnesses, templates x firing tick 0..21, generated "
+                "methods incl. Alarms on the real Engine, 40-45 ticks each.")
     m3_stream(ctx, "interp-m3", ctx.n(150, 3000), features=FEATURES)
-    cases = gen_oracle_cases(ctx, ctx.n(40, 800))
-    ctx.monitor(cases, lambda c: oracle_case(c["pcode"], c["ticks"], c["plan"]), impl_timeout=60)
+    bcases = blocks_stream(ctx, ctx.n(40, 1200))
+    calm_census(ctx, bcases[:ctx.n(40, 400)])
+    ctx.monitor(gen_oracle_cases(ctx, ctx.n(60, 1500)), _oracle, impl_timeout=60)
     ctx.assumptions = ["clock tags, condition tags and command completion are inputs of the model",
-                       "method blocks only (injected blocks are not seen by get_locked_blocks)"]
-    return ctx.finish(search=lambda c: c.monitor(gen_oracle_cases(c, c.n(150, 1500)),
-                                                 lambda x: oracle_case(x["pcode"], x["ticks"], x["plan"]), impl_timeout=60))
+                       "method blocks only (injected blocks are not seen by get_locked_blocks); no live edit",
+                       "Block-tag theorem: calm ticks only (no exotic micro-step); End-block theorem: first locked "
+                       "block not ended"]
+    return ctx.finish(search=lambda c: c.monitor(gen_oracle_cases(c, c.n(300, 3000), fixed=False), _oracle,
+                                                 impl_timeout=60))
 
 
 def replay(obj) -> int:
     c = obj.get("case", {})
-    if "pcode" in c:
-        f = oracle_case(c["pcode"], c.get("ticks", 40) if isinstance(c.get("ticks"), int) else 40, c.get("plan", []))
+    if "pcode" in c and "plan" in c:
+        fs = _oracle(c)
         print(c["pcode"])
-        print("oracle:", f)
-        return 1 if f else 0
+        for f in fs:
+            print("oracle:", f.key, "-", f.detail, "- tick", f.case.get("tick"))
+        if not fs:
+            print("oracle: no failure")
+        return 1 if fs else 0
+    if "pcode" in c and "ops" in c:
+        from harness.interp_run import run_case
+        lines, outs = run_case(c) if any(op[0] != "tick" for op in c["ops"]) else _blocks_run(c)
+        mo = drive("Interp", [lines])[0]
+        bad = [i for i in range(max(len(outs), len(mo))) if i >= len(outs) or i >= len(mo) or outs[i] != mo[i]]
+        print(c["pcode"])
+        print("first differing line:", bad[0] if bad else None)
+        if bad:
+            i = bad[0]
+            print(" impl :", outs[i] if i < len(outs) else "<none>")
+            print(" model:", mo[i] if i < len(mo) else "<none>")
+        return 1 if bad else 0
     print(obj)
     return 0
